@@ -9,6 +9,7 @@ open Petl.Gen
 
 def expectedC05 : List (String × String) := [
   ("file:comparison.py", "c46d05a1308c92ce"),
+  ("file:compat.py", "2a259e16acd200bc"),
   ("file:config.py", "142bde514c82c29d"),
   ("file:transform/basics.py", "ef1ded632cafe787"),
   ("file:transform/sorts.py", "137f7e8a70e043fe"),
